@@ -2,9 +2,12 @@
 from vlib.framework import PUnit, LUnit, BUnit
 from bounded import b_coords as B
 from contracts import build_system as BS
+from contracts import effects as E
 
 P_UNITS = [PUnit("density-box", [BS.BOX], BS.REG),
-           PUnit("molecules-in-topology-order", [BS.TO_SYSTEM], BS.REG)]
+           PUnit("molecules-in-topology-order", [BS.TO_SYSTEM], BS.REG),
+           PUnit("requested-or-density-box", [BS.INIT_BOX], BS.REG_B),
+           LUnit("box-precedence", E.lemma_box_precedence)]
 
 
 def build(tier, seed):
